@@ -29,6 +29,8 @@ func init() {
 			"C04.R3 exemption table (append-to-existing commands)",
 		},
 		Assumptions: []string{"commands reach pkg/cli only through the constructors (Command literals outside pkg/cli are reported)", "os.Stat/os.ReadDir semantics"},
+		Technique:   "forward must-dataflow of checked(v) facts over SSA values with success-edge generation and helper summaries; constructor output parameters found by reading constructor SSA; exemption table",
+		Note:        "Decides that the refusal check is reached with the same value that reaches the command, on every CFG path of every handler; does not decide exit status or that nothing ran before the check beyond what the dataflow shows. Two handlers whose idiom a value-based analysis cannot link get a residual rule (c04b.go).",
 	})
 }
 
